@@ -1425,7 +1425,7 @@ fn apply_single_operation(
         } => {
             if let Value::Str(s) = val {
                 // Early exit for simple string patterns (not regex)
-                if !flags.contains('g')
+                if !flags.contains(['g', 'i', 'x'])
                     && !pattern.contains([
                         '\\', '.', '*', '+', '?', '^', '$', '|', '[', ']', '(', ')', '{', '}',
                     ])
